@@ -131,7 +131,11 @@ package fiber
 //@   ensures [C06] immutable-stable: c.app.config.Immutable && copies(c.app.getString) ==> stable(result)
 
 //@ func (*DefaultCtx).BaseURL
-//@   props C10
+//@   props C10 C06
+// C06: the value is built by concatenation (an array of its own) and kept in c.baseURI; it is never a view of a buffer
+// (strings have no identity in the model, so "no view" is stated over the call history: checked on the body, not
+// assumed by callers). Seed C06-5 (base URI appended into a reused per-context buffer, returned via UnsafeString).
+//@   ensures [C06] no-view-conversion: !called(@utils.UnsafeString)
 //@   requires cache-wf: c.baseURI == "" || c.baseURI == scheme(c, epoch) + "://" + host(c, epoch)
 //@   modifies c.baseURI
 //@   ensures scheme-host: result == scheme(c, epoch) + "://" + host(c, epoch)
